@@ -186,8 +186,9 @@ def mkHb (p : Proxy) (cs : List Change) (now : Int) : Proxy × Sub :=
 def raiseSent (p : Proxy) (n : Nat) : Proxy :=
   if n > p.highestSent then { p with highestSent := n } else p
 
-/-- the `while let Some(next) = next_unsent_change` loop of write_message_reliable (:425-551). After the GAP
-    branch the change `next` itself is NOT sent although highest_sent moves to it (as coded). -/
+/-- the `while let Some(next) = next_unsent_change` loop of write_message_reliable. After the GAP branch
+    highest_sent moves to the END of the gap (`continue`), so the change `next` is sent by the next round of the loop
+    (repair 671be7c / D42; before it highest_sent moved to `next` and DATA(next) was left to a NACK). -/
 def sendUnsentRel (cs : List Change) (now : Int) : Nat → Proxy → List Dgram → Proxy × List Dgram
   | 0, p, acc => (p, acc)
   | fuel + 1, p, acc =>
@@ -196,7 +197,7 @@ def sendUnsentRel (cs : List Change) (now : Int) : Nat → Proxy → List Dgram 
     | some next =>
       if next > p.highestSent + 1 then
         let (p1, h) := mkHb p cs now
-        sendUnsentRel cs now fuel (raiseSent p1 next)
+        sendUnsentRel cs now fuel (raiseSent p1 (next - 1))
           (acc ++ [{ reader := p.id, subs := [.gap (p.highestSent + 1) next, h] }])
       else
         match findChange next cs with
@@ -243,7 +244,7 @@ def unackedMax (cs : List Change) (p : Proxy) : Bool :=
 /-- top part of write_message_reliable (stateful_writer.rs:424-571): unsent changes, else a heartbeat when something is
     unacknowledged and the period has elapsed -/
 def wmrTop (cs : List Change) (now : Int) (p : Proxy) : Proxy × List Dgram :=
-  if (nextUnsent p.highestSent cs).isSome then sendUnsentRel cs now (cs.length + 1) p []
+  if (nextUnsent p.highestSent cs).isSome then sendUnsentRel cs now (2 * cs.length + 1) p []
   else if !(unackedMax cs p) then (p, [])
   else if now - p.lastHb ≥ HB_PERIOD then ((mkHb p cs now).1, [{ reader := p.id, subs := [(mkHb p cs now).2] }])
   else (p, [])
@@ -253,7 +254,8 @@ def writeMessageReliable (cs : List Change) (now : Int) (p : Proxy) : Proxy × L
   if (wmrTop cs now p).1.requested.isEmpty then wmrTop cs now p
   else sendRequested cs now ((wmrTop cs now p).1.requested.length + 1) (wmrTop cs now p).1 (wmrTop cs now p).2
 
-/-- write_message_best_effort (:302-407): no heartbeats, first_relevant_sample_seq_num is not consulted -/
+/-- write_message_best_effort: no heartbeats; a gap is announced and the change after it is sent by the next round;
+    changes up to first_relevant_sample_seq_num are answered with a GAP (repair 671be7c / D4, D42) -/
 def sendUnsentBe (cs : List Change) : Nat → Proxy → List Dgram → Proxy × List Dgram
   | 0, p, acc => (p, acc)
   | fuel + 1, p, acc =>
@@ -261,14 +263,18 @@ def sendUnsentBe (cs : List Change) : Nat → Proxy → List Dgram → Proxy × 
     | none => (p, acc)
     | some next =>
       if next > p.highestSent + 1 then
-        sendUnsentBe cs fuel (raiseSent p next) (acc ++ [{ reader := p.id, subs := [.gap (p.highestSent + 1) next] }])
+        sendUnsentBe cs fuel (raiseSent p (next - 1)) (acc ++ [{ reader := p.id, subs := [.gap (p.highestSent + 1) next] }])
       else
         match findChange next cs with
-        | some c => sendUnsentBe cs fuel (raiseSent p next) (acc ++ [{ reader := p.id, subs := [.data c] }])
+        | some c =>
+          if next > p.firstRelevant then
+            sendUnsentBe cs fuel (raiseSent p next) (acc ++ [{ reader := p.id, subs := [.data c] }])
+          else
+            sendUnsentBe cs fuel (raiseSent p next) (acc ++ [{ reader := p.id, subs := [.gap next (next + 1)] }])
         | none => sendUnsentBe cs fuel (raiseSent p next) (acc ++ [{ reader := p.id, subs := [.gap next (next + 1)] }])
 
 def writeMessageProxy (cs : List Change) (now : Int) (p : Proxy) : Proxy × List Dgram :=
-  if p.reliable then writeMessageReliable cs now p else sendUnsentBe cs (cs.length + 1) p []
+  if p.reliable then writeMessageReliable cs now p else sendUnsentBe cs (2 * cs.length + 1) p []
 
 /-- RtpsStatefulWriter::write_message: every matched reader in turn -/
 def writeMessageAll (cs : List Change) (now : Int) : List Proxy → List Proxy × List Dgram
@@ -479,11 +485,10 @@ def newProxy (rid : Nat) (reliable : Bool) (firstRelevant : Nat) : Proxy :=
     firstRelevant := firstRelevant, lastHb := HB_TIME0, hbCount := 0, lastAckCount := 0 }
 
 /-- add_matched_reader (stateful_writer.rs:74-106): a VOLATILE reader starts after the newest stored change;
-    an already matched GUID is replaced by a fresh proxy -/
+    a reader that is already matched keeps its protocol state (repair eab7967 / D43) -/
 def matchReader (s : St) (rid : Nat) (reliable transientLocal : Bool) : St :=
   { s with proxies :=
-      if s.proxies.any (proxyIdEq rid) then
-        replaceProxy (newProxy rid reliable (if transientLocal then 0 else hbLast s.changes)) s.proxies
+      if s.proxies.any (proxyIdEq rid) then s.proxies
       else s.proxies ++ [newProxy rid reliable (if transientLocal then 0 else hbLast s.changes)] }
 
 /-- lookup_instance (writer_methods.rs:290-294) -/
@@ -505,17 +510,19 @@ def Ev.now : Ev → Option Int
   | .tick n => some n
   | .matchReader _ _ _ => none
 
+/-- one event, as the worker of /repo main handles it: remove_stale_writer_samples runs BEFORE a mail is handled
+    (domain_participant_factory.rs, repair 5f97ba4 / D34), then the handler; a worker iteration is `tick` -/
 def step (s : St) : Ev → St × Out
-  | .write k v ts now => methodWrite s k v ts now
-  | .acknack rid base set count now => onAcknack s rid base set count now
+  | .write k v ts now => methodWrite (removeStale s now) k v ts now
+  | .acknack rid base set count now => onAcknack (removeStale s now) rid base set count now
   | .tick now => tick s now
   | .matchReader rid rel tl => (matchReader s rid rel tl, Out.none)
 
-/-- the same step for a worker that calls remove_stale_writer_samples BEFORE it handles a mail (fixes/D34.patch,
-    drafted, not assumed by the delivered driver unless a scenario starts with `# assume-fix D34`) -/
-def stepPurgeFirst (s : St) : Ev → St × Out
-  | .write k v ts now => methodWrite (removeStale s now) k v ts now
-  | .acknack rid base set count now => onAcknack (removeStale s now) rid base set count now
+/-- the same event handled by the worker BEFORE the repair of D34 (pinned commit): the mail is handled on the
+    history as it is, the purge only comes with the per-iteration part. Regression witness only. -/
+def stepAsIs (s : St) : Ev → St × Out
+  | .write k v ts now => methodWrite s k v ts now
+  | .acknack rid base set count now => onAcknack s rid base set count now
   | .tick now => tick s now
   | .matchReader rid rel tl => (matchReader s rid rel tl, Out.none)
 
